@@ -1,5 +1,8 @@
 pub fn lcm(iter: impl Iterator<Item = usize>) -> usize {
-    iter.fold(1, |acc, x| acc * x / gcd(acc, x))
+    iter.fold(1, |acc, x| match gcd(acc, x) {
+        0 => 0,
+        g => (acc / g).saturating_mul(x),
+    })
 }
 
 pub fn gcd(mut a: usize, mut b: usize) -> usize {
